@@ -35,7 +35,12 @@ import (
 
 func init() { props["C17"] = runC17 }
 
-func ledgerCheck(c *Ctx, where string, replay interface{}) {
+// ledgerAll: the run of a property other than C17 is under the ledger too (main.go)
+var ledgerAll bool
+
+func ledgerCheck(c *Ctx, where string, replay interface{}) { ledgerCheckAs(c, where, replay, "") }
+
+func ledgerCheckAs(c *Ctx, where string, replay interface{}, meaning string) {
 	for _, v := range mangos.VerifLedgerViolations() {
 		first := strings.SplitN(v, "\n", 2)[0]
 		// the first library frame below message.go tells who did it
@@ -49,7 +54,11 @@ func ledgerCheck(c *Ctx, where string, replay interface{}) {
 				break
 			}
 		}
-		c.Violate(fmt.Sprintf("message ownership (%s): %s; in %s", where, strings.SplitN(first, " (message", 2)[0], who), map[string]interface{}{"ledger": v, "scenario": replay})
+		what := fmt.Sprintf("message ownership (%s): %s; in %s", where, strings.SplitN(first, " (message", 2)[0], who)
+		if meaning != "" {
+			what = fmt.Sprintf("%s: %s (%s; in %s)", where, meaning, strings.SplitN(first, " (message", 2)[0], who)
+		}
+		c.Violate(what, map[string]interface{}{"ledger": v, "scenario": replay})
 	}
 }
 
